@@ -228,6 +228,14 @@ CANARIES = [
     ("stack-bwd-first-piece", "c02_struct", "tensor_manip/tensor_joining/ops.py", "                slice(None, None, None) if dim != self.axis else index\n", "                slice(None, None, None) if dim != self.axis else 0\n", r"C02\.struct\.Stack.*index=[12]\]\.vjp"),
     ("stack-axis-not-normalised", "c02_struct", "tensor_manip/tensor_joining/ops.py", "            self.axis = axis % out.ndim\n\n        return out", "            self.axis = axis\n\n        return out", r"C02\.struct\.Stack.*axis=-"),
     ("stack-forward-axis-dropped", "c02_struct", "tensor_manip/tensor_joining/ops.py", "        out = np.stack(tuple(var.data for var in input_vars), axis=axis, out=out)", "        out = np.stack(tuple(var.data for var in input_vars), out=out)", r"C0[23]\.struct\.Stack"),
+    # ---- Sum / Mean (c02_reduce) -----------------------------------------------------------------------------------------------
+    ("sum-bwd-axis-not-reinserted", "c02_reduce", "math/sequential/ops.py", "                index[i] = np.newaxis\n", "                index[i] = slice(None)\n", r"C02\.reduce\.Sum"),
+    ("sum-bwd-keepdims-inverted", "c02_reduce", "math/sequential/ops.py", "        if not self.keepdims:\n            index = [slice(None) for i in range(a.ndim)]", "        if self.keepdims:\n            index = [slice(None) for i in range(a.ndim)]", r"C02\.reduce\.Sum"),
+    ("mean-bwd-divides-by-first-axis-only", "c02_reduce", "math/sequential/ops.py", "            else np.prod([a.shape[i] for i in self.axis])", "            else a.shape[self.axis[0]]", r"C02\.reduce\.Mean\[r[23],axis=\(.*,.*\.vjp"),
+    ("mean-bwd-divides-by-size", "c02_reduce", "math/sequential/ops.py", "            else np.prod([a.shape[i] for i in self.axis])", "            else a.data.size", r"C02\.reduce\.Mean.*\.vjp"),
+    ("sequential-axis-normalised-to-zero", "c02_reduce", "operation_base.py", "            self.axis = (axis,)\n", "            self.axis = (0,)\n", r"C02\.reduce\.(Sum|Mean)\[r[23],axis=(1|2|-1)"),
+    ("sequential-keepdims-dropped", "c02_reduce", "operation_base.py", "            kwargs[\"keepdims\"] = keepdims\n", "            kwargs[\"keepdims\"] = False\n", r"C02\.reduce\..*keepdims=True.*kernel_receives_keepdims"),
+    ("sequential-axis-not-forwarded", "c02_reduce", "operation_base.py", "        out = self.numpy_func(a.data, axis=axis, out=out, **kwargs)", "        out = self.numpy_func(a.data, axis=self.axis, out=out, **kwargs)", None),
     ("turn-off-noop", "c15_ctx", "_utils/lock_management.py", "    global MEM_GUARD\n    MEM_GUARD = False", "    MEM_GUARD = False", r"C15\.ctx\.turn_memory_guarding_off"),
 ]
 
